@@ -91,9 +91,9 @@ fn c15c_asm_loads_in_bounds() {
 }
 
 // C06-D: the portable loop is total on every state (stream source that may be exhausted), count up to 32.
-//@ {"name":"c06d_direct_bits_total","props":["C06","C05"],"obligation":"C06-D","timeout":1500,"mem_gb":9,"functions":["range_dec::RangeDecoder::decode_direct_bits (portable, stream source)","range_dec::RangeReader::read_u8"],"bounds":"range, code any u32; count 0..=8; source of 0..=4 arbitrary bytes; unwind 14","assumes":[]}
+//@ {"name":"c06d_direct_bits_total","props":["C06","C05"],"obligation":"C06-D","timeout":1500,"mem_gb":9,"functions":["range_dec::RangeDecoder::decode_direct_bits (portable, stream source)","range_dec::RangeReader::read_u8"],"bounds":"range, code any u32; count 0..=8; source of 0..=4 arbitrary bytes; unwind 24","assumes":[]}
 #[kani::proof]
-#[kani::unwind(14)]
+#[kani::unwind(24)]
 fn c06d_direct_bits_total() {
     let (range, code): (u32, u32) = (kani::any(), kani::any());
     let count: u32 = kani::any();
